@@ -58,11 +58,10 @@ enum Tx {
     Failed,
 }
 
-#[tokio::test]
-async fn connection_abandoned_in_copy_in_inside_a_transaction_is_not_reused_as_is() {
+async fn backend() -> (u16, tokio::sync::mpsc::UnboundedReceiver<String>) {
     let listener = TcpListener::bind("127.0.0.1:0").await.unwrap();
     let port = listener.local_addr().unwrap().port();
-    let (tx_log, mut rx_log) = tokio::sync::mpsc::unbounded_channel::<String>();
+    let (tx_log, rx_log) = tokio::sync::mpsc::unbounded_channel::<String>();
 
     tokio::spawn(async move {
         let (mut s, _) = listener.accept().await.unwrap();
@@ -83,6 +82,7 @@ async fn connection_abandoned_in_copy_in_inside_a_transaction_is_not_reused_as_i
 
         let mut tx = Tx::Idle;
         let mut copy_in = false;
+        let mut search_path = String::from("public");
         loop {
             let code = match s.read_u8().await { Ok(c) => c, Err(_) => return };
             let len = s.read_i32().await.unwrap();
@@ -120,6 +120,15 @@ async fn connection_abandoned_in_copy_in_inside_a_transaction_is_not_reused_as_i
             } else if q.starts_with("ROLLBACK") || q.starts_with("ABORT") || q.starts_with("COMMIT") {
                 tx = Tx::Idle;
                 r.put(msg(b'C', b"ROLLBACK\0"));
+            } else if q.starts_with("SET SEARCH_PATH TO ") {
+                search_path = q["SET SEARCH_PATH TO ".len()..].to_lowercase();
+                r.put(msg(b'C', b"SET\0"));
+            } else if q.contains("RESET ALL") {
+                search_path = String::from("public");
+                r.put(msg(b'C', b"RESET\0"));
+            } else if q.starts_with("SHOW SEARCH_PATH") {
+                let _ = tx_log.send(format!("search_path is {}", search_path));
+                r.put(msg(b'C', b"SHOW\0"));
             } else if q.starts_with("COPY") && q.contains("FROM STDIN") {
                 copy_in = true;
                 let mut g = BytesMut::new();
@@ -135,6 +144,12 @@ async fn connection_abandoned_in_copy_in_inside_a_transaction_is_not_reused_as_i
         }
     });
 
+    (port, rx_log)
+}
+
+#[tokio::test]
+async fn connection_abandoned_in_copy_in_inside_a_transaction_is_not_reused_as_is() {
+    let (port, mut rx_log) = backend().await;
     let address = Address { host: "127.0.0.1".into(), port, ..Default::default() };
     let user = User { password: Some("x".into()), ..Default::default() };
     let mut server = Server::startup(
@@ -162,6 +177,44 @@ async fn connection_abandoned_in_copy_in_inside_a_transaction_is_not_reused_as_i
         !(reusable && server.in_transaction()),
         "checkin_cleanup returned {:?}, is_bad() = {}, yet the server is still inside a (failed) transaction block: \
          the next client inherits it\nbackend log:\n{}",
+        cleaned, server.is_bad(), log.join("\n")
+    );
+}
+
+// D25: the same mechanism without a transaction block. The session is dirty (SET), the client vanishes
+// during an autocommit COPY FROM STDIN: the `RESET ROLE;RESET ALL;` of checkin_cleanup is consumed as the
+// protocol violation that ends the COPY (ErrorResponse clears in_copy_mode, ReadyForQuery 'I'), the dirty
+// marks are dropped although nothing was reset, and the next client inherits search_path.
+#[tokio::test]
+async fn dirty_connection_abandoned_in_copy_in_is_not_reused_with_the_old_settings() {
+    let (port, mut rx_log) = backend().await;
+    let address = Address { host: "127.0.0.1".into(), port, ..Default::default() };
+    let user = User { password: Some("x".into()), ..Default::default() };
+    let mut server = Server::startup(
+        &address, &user, "db", Default::default(), Arc::new(ServerStats::default()),
+        Arc::new(parking_lot::RwLock::new(None)), true, false, 0,
+    ).await.unwrap();
+
+    server.claim(1, 1);
+    server.send(&simple_query("SET search_path TO evil")).await.unwrap();
+    server.recv(None).await.unwrap();
+    server.send(&simple_query("COPY t FROM STDIN")).await.unwrap();
+    server.recv(None).await.unwrap();
+    assert!(server.in_copy_mode());
+
+    let cleaned = server.checkin_cleanup().await;
+    let reusable = cleaned.is_ok() && !server.is_bad();
+    if reusable {
+        // what the next client would see
+        server.query("SHOW search_path").await.unwrap();
+    }
+    let mut log = vec![];
+    while let Ok(l) = rx_log.try_recv() {
+        log.push(l);
+    }
+    assert!(
+        !(reusable && log.iter().any(|l| l == "search_path is evil")),
+        "checkin_cleanup returned {:?}, is_bad() = {}: the connection is reused and still has the previous client's search_path\nbackend log:\n{}",
         cleaned, server.is_bad(), log.join("\n")
     );
 }
